@@ -248,6 +248,32 @@ impl R2 {
     }
 }
 
+impl R2 {
+    /// a cube root in Fq2 (None for cubic non-residues). 9 does not divide q^2 - 1, so for m = (q^2-1)/3 the
+    /// exponent e = 3^-1 mod m gives (c^e)^3 = c for every cubic residue c.
+    pub fn cbrt(&self) -> Option<R2> {
+        if Fld::is_zero(self) {
+            return Some(*self);
+        }
+        static E: OnceLock<BigUint> = OnceLock::new();
+        let e = E.get_or_init(|| {
+            let q = zp::q();
+            let m = (q * q - 1u32) / 3u32;
+            // 3^-1 mod m by Euler is awkward (m not prime): use the extended Euclid on small numbers: find k with 1 + k*m = 0 mod 3
+            let mm = (&m % 3u32).to_u64_digits().first().copied().unwrap_or(0);
+            assert!(mm != 0, "9 | q^2-1");
+            let k = if mm == 1 { 2u32 } else { 1u32 }; // 1 + k*m = 0 (mod 3)
+            (BigUint::from(1u32) + &m * k) / 3u32
+        });
+        let r = self.pow(e);
+        if r.mul(&r).mul(&r) == *self {
+            Some(r)
+        } else {
+            None
+        }
+    }
+}
+
 impl Fld for R2 {
     fn zero() -> Self {
         R2 { a: F::zero(), b: F::zero() }
